@@ -12,6 +12,8 @@ def call(f, *a, **k):
     try:
         return ("ok", f(*a, **k))
     except Exception as e:                      # classified by the caller, by class only
+        if type(e).__name__ == "TapeError":     # harness error, never a verdict about the library
+            raise
         return ("exc", type(e).__name__, repr(e)[:300])
 
 
